@@ -25,7 +25,58 @@ UNITS = {
                 src='dora-asm/src/arm64.rs', impl='impl AssemblerArm64'),
     'x64': dict(rows='contracts/x64_requests.rs', mods=['spec/x64dec.rs'], crate='dora-asm',
                 src='dora-asm/src/x64.rs', impl='impl AssemblerX64'),
+    # items cut verbatim out of dora-runtime (the crate itself needs libc/mmap and is too heavy for Kani)
+    'c10': dict(rows='contracts/c10_rows.rs', mods=[], crate=None, gen=lambda: _gen_c10_cut()),
 }
+
+
+def _gen_c10_cut():
+    """CodeSpan / CodeMap{new,insert,get} / CodeId from runtime/code.rs and Address from gc.rs, cut verbatim.
+    `Code` (which these items never touch) is an opaque unit struct."""
+    root = common.repo_root()
+    C = Source(os.path.join(root, 'dora-runtime/src/runtime/code.rs'))
+    G = Source(os.path.join(root, 'dora-runtime/src/gc.rs'))
+    out = ['#![allow(unused)]', 'use std::cmp::Ordering;', 'use std::collections::BTreeMap;', 'use std::fmt;', 'pub struct Code;', '']
+    out.append(G.cut_item('struct', 'Address')['text'])
+    meths = []
+    for bl in G.find_impls('impl Address'):
+        d = G.depth[bl['open']] + 1
+        for nm in ('from', 'to_usize', 'offset', 'null'):
+            try:
+                meths.append(G.cut_fn(nm, bl['open'] + 1, bl['end'] - 1, depth=d)['text'])
+            except Exception:
+                pass
+    out.append('impl Address {\n' + '\n'.join(meths) + '\n}')
+    for h in ('impl fmt::Debug for Address', 'impl PartialOrd for Address', 'impl Ord for Address', 'impl From<usize> for Address'):
+        bls = G.find_impls(h)
+        if not bls:
+            raise Undecided('extraction: %s not found in gc.rs' % h)
+        out.append(G.src[bls[0]['start']:bls[0]['end']])
+    out.append(C.cut_item('struct', 'CodeId')['text'])
+    for h in ('impl CodeId', 'impl From<usize> for CodeId'):
+        bls = C.find_impls(h)
+        if not bls:
+            raise Undecided('extraction: %s not found in code.rs' % h)
+        out.append(C.src[bls[0]['start']:bls[0]['end']])
+    out.append(C.cut_item('struct', 'CodeSpan')['text'])
+    for h in ('impl CodeSpan', 'impl PartialEq for CodeSpan', 'impl Eq for CodeSpan', 'impl PartialOrd for CodeSpan', 'impl Ord for CodeSpan'):
+        bls = C.find_impls(h)
+        if not bls:
+            raise Undecided('extraction: %s not found in code.rs' % h)
+        out.append(C.src[bls[0]['start']:bls[0]['end']])
+    out.append(C.cut_item('struct', 'CodeMap')['text'])
+    bls = C.find_impls('impl CodeMap')
+    meths = []
+    for nm in ('new', 'insert', 'get'):
+        d = C.depth[bls[0]['open']] + 1
+        meths.append(C.cut_fn(nm, bls[0]['open'] + 1, bls[0]['end'] - 1, depth=d)['text'])
+    out.append('impl CodeMap {\n' + '\n'.join(meths) + '\n}')
+    text = '\n\n'.join(out) + '\n'
+    # the rows live in a sibling module: make the cut items visible to it (visibility only)
+    text = re.sub(r'(?m)^(\s*)fn (new|intersect|insert|get)\(', r'\1pub fn \2(', text)
+    text = re.sub(r'(?m)^struct CodeSpan', 'pub struct CodeSpan', text)
+    text = re.sub(r'(?m)^(\s+)(start|end): Address,', r'\1pub \2: Address,', text)
+    return {'cut': text}
 
 
 class Undecided(Exception):
@@ -57,6 +108,11 @@ def gen_crate(unit, dest):
     os.makedirs(os.path.join(dest, 'src'), exist_ok=True)
     mods = []
     shutil.copy(os.path.join(VERIF, 'spec', 'vp.rs'), os.path.join(dest, 'src', 'vp.rs'))
+    if u.get('gen'):
+        for name, text in u['gen']().items():
+            with open(os.path.join(dest, 'src', name + '.rs'), 'w') as f:
+                f.write(text)
+            mods.append(name)
     for m in u['mods'] + [u['rows']]:
         name = os.path.basename(m)[:-3]
         shutil.copy(os.path.join(VERIF, m), os.path.join(dest, 'src', name + '.rs'))
@@ -78,7 +134,7 @@ def gen_crate(unit, dest):
     toml = ['[package]', 'name = "vp_rows"', 'version = "0.0.0"', 'edition = "2021"', '',
             '[lib]', 'name = "vp_rows"', 'path = "src/lib.rs"', '',
             '[[bin]]', 'name = "vp_run"', 'path = "src/main.rs"', '',
-            '[dependencies]', '%s = { path = "%s" }' % (u['crate'], os.path.join(root, u['crate'])), '',
+            '[dependencies]'] + (['%s = { path = "%s" }' % (u['crate'], os.path.join(root, u['crate']))] if u['crate'] else []) + ['',
             '[workspace]', '',
             '[lints.rust]', 'unexpected_cfgs = { level = "allow", check-cfg = [\'cfg(kani)\'] }', '',
             '[profile.release]', 'debug-assertions = true', 'overflow-checks = true', 'opt-level = 1']
@@ -153,6 +209,8 @@ def classify_check(fc, harness_dir):
     if desc.startswith('VP:') or 'VP:' in desc:
         return 'violation'
     in_harness = f.startswith(harness_dir) or '/vp_rows/' in f or f.startswith('src/')
+    if f.endswith('src/cut.rs'):
+        in_harness = False     # items cut verbatim from the repository: their panics are refusals
     if 'unwinding assertion' in desc or 'not supported' in desc or 'unsupported' in desc.lower():
         return 'undecided'
     if in_harness:
